@@ -53,6 +53,11 @@ def _make_exception_proxy(exception, message):
 
   ExceptionProxy.__name__ = type(exception).__name__
   ExceptionProxy.__qualname__ = type(exception).__qualname__
+  if hasattr(exception, 'derive') and hasattr(exception, 'split'):
+    # Exception groups: `split`, `subgroup` and `except*` build their parts
+    # with `derive`; a user-defined one (`type(self)(...)`) must not be handed
+    # the proxy class.
+    ExceptionProxy.derive = lambda self, excs: exception.derive(excs)
 
   # Fields stored in C-level members or slots (`errno`, `filename`, `value`,
   # `lineno`, `name`, ...) are found on the class and so never reach
